@@ -2,6 +2,7 @@ import Skc.Model.Pelt
 import Skc.Model.Capa
 import Skc.Model.Pen
 import Skc.Model.Det
+import Skc.Model.Conv
 /-! Line-protocol driver over the executable models (`lake exe skcdrv` or
     `lake env lean --run Driver.lean`): one operation per input line, one canonical output line
     per operation; ill-formed lines answer `bad-op` (never a default). Carrier: `Rat`. -/
@@ -146,6 +147,39 @@ def handleMw (ws : List String) : String :=
     | _, _, _, _, _, _, _, _ => "bad-op"
   | _ => "bad-op"
 
+def chunk (k : Nat) : Nat → List Nat → List (List Nat)
+  | 0, _ => []
+  | fuel + 1, l => if l.isEmpty then [] else l.take k :: chunk k fuel (l.drop k)
+
+/-- parse `s e ncols c_1 … c_ncols` records -/
+def parseSub : Nat → List Nat → Option (List ((Nat × Nat) × List Nat))
+  | _, [] => some []
+  | 0, _ => none
+  | fuel + 1, s :: e :: nc :: rest =>
+      if rest.length < nc then none else
+      (parseSub fuel (rest.drop nc)).map (fun t => ((s, e), rest.take nc) :: t)
+  | _, _ => none
+
+/-- sparse ↔ dense conversions, on positions:
+    `s2d_coll n s1 e1 …`, `d2s_coll l_0 … l_{n-1}`, `s2d_cp n c1 …`, `d2s_cp l_0 …`,
+    `s2d_sub n p (s e ncols cols…)…`, `d2s_sub n p <n·p labels row-major>` -/
+def handleConv (op : String) (ws : List String) : String :=
+  match ws.mapM (·.toNat?) with
+  | none => "bad-op"
+  | some nums =>
+    match op, nums with
+    | "s2d_coll", n :: rest => if rest.length % 2 ≠ 0 then "bad-op" else toString (collS2D (pairs rest) n)
+    | "d2s_coll", labels => toString (collD2S labels)
+    | "s2d_cp", n :: cps => toString (cpS2D cps n)
+    | "d2s_cp", labels => toString (cpD2S labels)
+    | "s2d_sub", n :: p :: rest =>
+      match parseSub (rest.length + 1) rest with
+      | some an => toString (subS2D an n p)
+      | none => "bad-op"
+    | "d2s_sub", n :: p :: labels =>
+      if labels.length ≠ n * p then "bad-op" else toString (subD2S (chunk p (n + 1) labels) p)
+    | _, _ => "bad-op"
+
 def handle (line : String) : String :=
   let ws := (line.trimAscii.toString.splitOn " ").filter (· ≠ "")
   match ws with
@@ -157,6 +191,12 @@ def handle (line : String) : String :=
   | "sbs" :: rest => handleSbs rest
   | "cbs" :: rest => handleCbs rest
   | "mw" :: rest => handleMw rest
+  | "s2d_coll" :: rest => handleConv "s2d_coll" rest
+  | "d2s_coll" :: rest => handleConv "d2s_coll" rest
+  | "s2d_cp" :: rest => handleConv "s2d_cp" rest
+  | "d2s_cp" :: rest => handleConv "d2s_cp" rest
+  | "s2d_sub" :: rest => handleConv "s2d_sub" rest
+  | "d2s_sub" :: rest => handleConv "d2s_sub" rest
   | _ => "bad-op"
 
 partial def loop (h : IO.FS.Stream) : IO Unit := do
